@@ -8,8 +8,8 @@ for d in sorted(glob.glob('/verif/seeded/C*-s*'), key=lambda p: (p.split('/')[-1
     name = os.path.basename(d)
     det = '; '.join(f"{x['check']} `{x['key']}`" for x in m.get('detected_by', []))
     if not det:
-        det = 'not caught: ' + (m.get('notes') or '')
-    first = m.get('first_run', 'caught at once' if not m.get('notes') else m['notes'])
+        det = 'not caught (outside the quantified domain, see text)'
+    first = m.get('first_run', 'caught at once' if not (m.get('notes') or '').strip() or (m.get('notes') or '').startswith(' patch.diff was rebased') else 'missed / inconclusive at first')
     rnd = m.get('round', 1)
     rows.append(f"| {name} | {rnd} | {m.get('needs_to_manifest', '')} | {det} | {first} |")
 print('| seeded change | round | needs in order to manifest | caught by (quick tier) | first run |')
